@@ -1091,11 +1091,14 @@ package yang
 //@   ensures[a-type-that-is-resolved-answers-with-the-errors-found-then] old(t.YangType) != nil ==> result == old(t.resolveErrs) && t.YangType == old(t.YangType)
 //@   requires t != nil && d != nil && rootOf(iface(t)) != nil && rootOf(iface(t)).Modules != nil && (forall m *Module :: modOK(m))
 //@   requires forall i int :: 0 <= i && i < len(rootOf(iface(t)).Import) ==> rootOf(iface(t)).Import[i] != nil && rootOf(iface(t)).Import[i].Prefix != nil
-//@   only before: loop1/ loop2/ pre:RootNode/ pre:(*typeDictionary).find pre:getPrefix pre:(*typeDictionary).findExternal invoke ensures:a-type-that-is-resolved
+//@   only before: loop1/ loop2/ loop3/ pre:RootNode/ pre:(*typeDictionary).find pre:getPrefix pre:(*typeDictionary).findExternal invoke ensures:a-type-that-is-resolved
 //@   before[a-built-in-name-denotes-the-built-in] (*Typedef).resolve old(BaseTypedefs[t.Name]) != nil ==> arg0 == old(BaseTypedefs[t.Name])
 //@   before[a-local-name-binds-to-the-nearest-enclosing-scope] (*Typedef).resolve old(BaseTypedefs[t.Name]) == nil && old(localName(t)) && scopeFind(d, iface(t), baseOf(t.Name)) != nil ==> arg0 == scopeFind(d, iface(t), baseOf(t.Name))
 //@   before[then-to-the-submodules-the-module-includes] (*Typedef).resolve old(BaseTypedefs[t.Name]) == nil && old(localName(t)) && scopeFind(d, iface(t), baseOf(t.Name)) == nil
-//@            ==> arg0 != nil && (exists j int :: 0 <= j && j < len(rootOf(iface(t)).Include) && arg0 == dictFind(d, boxptr(rootOf(iface(t)).Include[j].Module), baseOf(t.Name)))
+//@            ==> arg0 != nil && ((exists j int :: 0 <= j && j < len(rootOf(iface(t)).Include) && arg0 == dictFind(d, boxptr(rootOf(iface(t)).Include[j].Module), baseOf(t.Name)))
+//@                 || (rootOf(iface(t)).BelongsTo != nil && nsOwner(rootOf(iface(t))) != nil      -- from a submodule: the top level of the module it belongs to, then that module's submodules (RFC 7950 5.1)
+//@                     && (arg0 == dictFind(d, boxptr(nsOwner(rootOf(iface(t)))), baseOf(t.Name))
+//@                         || (exists j int :: 0 <= j && j < len(nsOwner(rootOf(iface(t))).Include) && arg0 == dictFind(d, boxptr(nsOwner(rootOf(iface(t))).Include[j].Module), baseOf(t.Name))))))
 //@   before[a-foreign-prefix-denotes-the-module-imported-under-it] (*Typedef).resolve old(BaseTypedefs[t.Name]) == nil && !old(localName(t))
 //@            ==> inTopLevel(d, importOf(rootOf(iface(t)), old(pfxOf(t.Name))), old(baseOf(t.Name)), arg0)
 //@   before[a-foreign-name-is-looked-up-and-reported-for-the-type-statement-itself] (*typeDictionary).findExternal arg1 == iface(t)
@@ -1106,6 +1109,8 @@ package yang
 //@     invariant scopeFind(d, n, name) == scopeFind(d, iface(t), name)
 //@   loop 2
 //@     invariant scopeFind(d, iface(t), name) == nil && (forall j int :: 0 <= j && j < _k ==> dictFind(d, boxptr(root.Include[j].Module), name) == nil)
+//@   loop 3
+//@     invariant scopeFind(d, iface(t), name) == nil
 
 // Typedef.resolve: the resolved type of a typedef is a fresh copy of the type
 // it is defined by, named after the typedef, with the typedef's own units and
